@@ -56,6 +56,21 @@ func startBin(dir string, env []string, args ...string) (*binRun, error) {
 	return r, nil
 }
 
+// startShell runs a shell command line (used to put a resource limit in front of the binary).
+func startShell(dir, script string) (*binRun, error) {
+	r := &binRun{done: make(chan struct{})}
+	r.cmd = exec.Command("/bin/sh", "-c", script)
+	r.cmd.Dir = dir
+	r.cmd.Env = baseEnv(dir)
+	r.cmd.Stdout = lockedWriter{&r.mu, &r.stdout}
+	r.cmd.Stderr = lockedWriter{&r.mu, &r.stderr}
+	if err := r.cmd.Start(); err != nil {
+		return nil, err
+	}
+	go func() { r.err = r.cmd.Wait(); close(r.done) }()
+	return r, nil
+}
+
 func (r *binRun) Out() string {
 	r.mu.Lock()
 	defer r.mu.Unlock()
